@@ -2,8 +2,9 @@
 (***************************************************************************)
 (* Exhaustive state graph of the CircularSlice part of Containers.         *)
 (* Slice 1 receives PushBack / PopFront / Reserve / Clear; slice 2 changes *)
-(* only through Swap and DeepAssign (Pair = TRUE), so every pair           *)
-(* (state of 1, earlier state of 1) is a state.  The value pushed is a     *)
+(* only through Swap and DeepAssign, so every pair (state of 1, earlier    *)
+(* state of 1) with capacities <= PairCap is a state, next to all single   *)
+(* states up to MaxCap.  The value pushed is a                             *)
 (* function of the queue (successor of its last element modulo ValMod), so *)
 (* contents are determined by (first element, length) and the state space  *)
 (* is the set of (cap, read_pos, write_pos) positions, including all       *)
@@ -15,7 +16,8 @@ EXTENDS Containers, Json
 CONSTANTS MaxCap,       \* capacities never exceed MaxCap
           ReserveSet,   \* arguments of Reserve
           ValMod,       \* pushed values cycle through 1..ValMod
-          Pair          \* BOOLEAN: second slice, Swap and DeepAssign enabled
+          PairCap       \* Swap / DeepAssign are explored among slices of capacity <= PairCap
+                        \* (-1: never); while slice 2 is in use slice 1 stays within PairCap
 
 VARIABLE js
 
@@ -36,12 +38,16 @@ GrowsTo(s) == IF SLen(s) = Cap(s) THEN 2 * Max(Cap(s), 4) ELSE Cap(s)
 
 Rest == UNCHANGED treeVars /\ js' = ToJson(SliceProj(sl'))
 
-Push(i)       == GrowsTo(sl[i]) <= MaxCap /\ SPush(i, NextVal(qs[i])) /\ Rest    \* the harness reads the value from the target
+InUse(s) == s # ZeroSlice
+Limit == IF InUse(sl[2]) THEN PairCap ELSE MaxCap
+PairOK == Cap(sl[1]) <= PairCap /\ Cap(sl[2]) <= PairCap
+
+Push(i)       == GrowsTo(sl[i]) <= Limit /\ SPush(i, NextVal(qs[i])) /\ Rest    \* the harness reads the value from the target
 Pop(i)        == SPop(i) /\ Rest
-Reserve(i, n) == SRes(i, n) /\ Rest
+Reserve(i, n) == Max(n, Cap(sl[i])) <= Limit /\ SRes(i, n) /\ Rest
 Clear(i)      == SClr(i) /\ Rest
-DeepAssign(i) == Pair /\ SDeepAssign(i) /\ Rest
-Swap          == Pair /\ SSwap /\ Rest
+DeepAssign(i) == PairOK /\ SDeepAssign(i) /\ Rest
+Swap          == PairOK /\ SSwap /\ Rest
 
 Next ==
   \/ Push(1)
